@@ -121,7 +121,7 @@ class Env:
         return Env._AnyBox()
 
     def f(self, *a: Any, **k: Any) -> Any:
-        return types.SimpleNamespace()
+        return Env._AnyBox()      # accepts attribute and item assignment
 
     g = f
 
